@@ -3,7 +3,7 @@ use std::{
     fmt::Debug,
     iter::FusedIterator,
     ops::{Deref, DerefMut, RangeBounds},
-    slice::{from_raw_parts, from_raw_parts_mut},
+    slice::from_raw_parts_mut,
 };
 
 use ref_cast::RefCast;
@@ -12,7 +12,7 @@ use super::node::ValueMut;
 use crate::{
     serde::tri,
     value::{
-        node::{Value, ValueRefInner},
+        node::Value,
         value_trait::JsonValueTrait,
     },
 };
@@ -668,15 +668,8 @@ impl IntoIter {
     }
 
     pub fn as_slice(&self) -> &[Value] {
-        if let ValueRefInner::Array(array) = self.array.0.as_ref2() {
-            unsafe {
-                let ptr = array.as_ptr();
-                let len = array.len();
-                from_raw_parts(ptr, len)
-            }
-        } else {
-            panic!("Array::as_slice: not an array");
-        }
+        // also for the empty array, which has its own representation
+        self.array.as_slice()
     }
 }
 
